@@ -434,3 +434,162 @@ pub fn normalize_uncommitted<C: Fc>(circuit: &Circuit<C::EF>, pack_k: usize, t: 
         i = j;
     }
 }
+
+/// Re-execute the whole op list the way the honest runner does — including non-primitive
+/// executors, so that permutation / recompose rows are regenerated from the *current* input
+/// values — but with some slots pinned to prover-chosen values and without any conflict
+/// check.  Returns the resulting assignment and the traces a prover would commit for it.
+///
+/// `freeze_others`: every slot that is not pinned keeps its honest value (a slot is changed
+/// "everywhere it appears" without propagation); otherwise every op recomputes the slots it
+/// defines from the current values (the change propagates).
+pub fn reexecute<C: Fc>(
+    circuit: &Circuit<C::EF>,
+    honest: &Traces<C::EF>,
+    pins: &HashMap<u32, C::EF>,
+    freeze_others: bool,
+) -> Result<(Vec<C::EF>, Traces<C::EF>), String> {
+    use p3_circuit::ops::{ExecutionContext, NpoPrivateData, OpStateMap};
+    let w0 = assignment_of::<C>(circuit, honest);
+    let n = w0.len();
+    let defs = crate::opsem::definers(circuit);
+    let pinned = |s: u32| pins.contains_key(&s) || freeze_others;
+    let val0 = |s: u32| pins.get(&s).copied().unwrap_or(w0[s as usize]);
+    // inputs and pinned slots start set; everything else is filled by its defining op
+    let mut wit: Vec<Option<C::EF>> = vec![None; n];
+    for s in circuit.public_rows.iter().chain(&circuit.private_input_rows) {
+        wit[s.0 as usize] = Some(val0(s.0));
+    }
+    for s in 0..n as u32 {
+        if pinned(s) {
+            wit[s as usize] = Some(val0(s));
+        }
+    }
+    let max_op = circuit
+        .ops
+        .iter()
+        .filter_map(|op| match op {
+            Op::NonPrimitiveOpWithExecutor { op_id, .. } => Some(op_id.0 as usize + 1),
+            _ => None,
+        })
+        .max()
+        .unwrap_or(0);
+    let private_data: Vec<Option<NpoPrivateData>> = (0..max_op).map(|_| None).collect();
+    let mut op_states: OpStateMap = Default::default();
+    let get = |wit: &[Option<C::EF>], id: WitnessId| wit[id.0 as usize].unwrap_or(w0[id.0 as usize]);
+    for (i, op) in circuit.ops.iter().enumerate() {
+        let mine: Vec<u32> = defs[i].iter().copied().filter(|s| !pinned(*s)).collect();
+        match op {
+            Op::Const { out, val } => {
+                if mine.contains(&out.0) {
+                    wit[out.0 as usize] = Some(*val);
+                }
+            }
+            Op::Public { .. } => {}
+            Op::Alu { kind, a, b, c, out, intermediate_out } => {
+                let (av, bv, ov) = (get(&wit, *a), get(&wit, *b), get(&wit, *out));
+                let cv = c.map(|x| get(&wit, x)).unwrap_or(C::EF::ZERO);
+                match kind {
+                    AluOpKind::Add => {
+                        if mine.contains(&b.0) {
+                            wit[b.0 as usize] = Some(ov - av);
+                        } else if mine.contains(&out.0) {
+                            wit[out.0 as usize] = Some(av + bv);
+                        }
+                    }
+                    AluOpKind::Mul => {
+                        if mine.contains(&b.0) {
+                            if let Some(inv) = p3_field::Field::try_inverse(&av) {
+                                wit[b.0 as usize] = Some(ov * inv);
+                            }
+                        } else if mine.contains(&out.0) {
+                            wit[out.0 as usize] = Some(av * bv);
+                        }
+                    }
+                    AluOpKind::MulAdd => {
+                        if let Some(io) = intermediate_out {
+                            if mine.contains(&io.0) {
+                                wit[io.0 as usize] = Some(av * bv);
+                            }
+                        }
+                        if mine.contains(&out.0) {
+                            wit[out.0 as usize] = Some(av * bv + cv);
+                        }
+                    }
+                    AluOpKind::BoolCheck => {
+                        if mine.contains(&out.0) {
+                            wit[out.0 as usize] = Some(av);
+                        }
+                    }
+                    AluOpKind::HornerAcc => {
+                        if mine.contains(&out.0) {
+                            let acc = get(&wit, intermediate_out.unwrap());
+                            wit[out.0 as usize] = Some(acc * bv + cv - av);
+                        }
+                    }
+                }
+            }
+            Op::Hint { inputs, outputs, executor } => {
+                for o in outputs {
+                    if mine.contains(&o.0) {
+                        wit[o.0 as usize] = None;
+                    }
+                }
+                let _ = executor.execute(inputs, outputs, &mut wit);
+            }
+            Op::NonPrimitiveOpWithExecutor { inputs, outputs, executor, op_id } => {
+                // the executor records the table row from the *current* inputs; let it write
+                // all of its outputs, then put pinned values back
+                let saved: Vec<(u32, Option<C::EF>)> = outputs
+                    .iter()
+                    .flatten()
+                    .map(|o| (o.0, wit[o.0 as usize]))
+                    .collect();
+                for (s, _) in &saved {
+                    wit[*s as usize] = None;
+                }
+                for g in inputs.iter().flatten() {
+                    if wit[g.0 as usize].is_none() {
+                        wit[g.0 as usize] = Some(w0[g.0 as usize]);
+                    }
+                }
+                {
+                    let mut ctx = ExecutionContext::new(
+                        &mut wit,
+                        &private_data,
+                        &circuit.enabled_ops,
+                        *op_id,
+                        &mut op_states,
+                    );
+                    executor
+                        .execute(inputs, outputs, &mut ctx)
+                        .map_err(|e| format!("re-execution of non-primitive op #{}: {e:?}", op_id.0))?;
+                }
+                for (s, old) in saved {
+                    if pinned(s) {
+                        wit[s as usize] = old;
+                    }
+                }
+            }
+        }
+    }
+    let w: Vec<C::EF> = wit
+        .iter()
+        .enumerate()
+        .map(|(i, v)| v.unwrap_or(w0[i]))
+        .collect();
+    let mut t = traces_from_assignment::<C>(circuit, &w, honest);
+    // non-primitive traces from the recorded rows, through the circuit's own generators
+    t.non_primitive_traces.clear();
+    for ty in &circuit.non_primitive_trace_generator_order {
+        let g = &circuit.non_primitive_trace_generators[ty];
+        match g(&op_states) {
+            Ok(Some(tr)) => {
+                t.non_primitive_traces.insert(tr.op_type(), tr);
+            }
+            Ok(None) => {}
+            Err(e) => return Err(format!("trace generator {ty:?}: {e:?}")),
+        }
+    }
+    Ok((w, t))
+}
